@@ -34,6 +34,9 @@ type EngCase struct {
 	// (the layout of the doc comment of Diff.Extend: the env block extends the global one)
 	// 3: a project-level diff block and an env whose own diff block is empty
 	Layout int `json:"layout,omitempty"`
+	// Native: the current database is created from DDL the way a person writes it (double-quoted or bare identifiers, inline
+	// constraints, lower-case `constraint` keyword) instead of the shape Atlas emits
+	Native bool `json:"native,omitempty"`
 }
 
 // toGM reduces the SQLite model to the names the exclusion semantics care about.
@@ -75,7 +78,7 @@ func checkEngine(c EngCase) (ExOutcome, error) {
 		return out, fmt.Errorf("harness: %v", err)
 	}
 	defer db.Close()
-	if err := db.Exec(c.A.DDL(model.StyleAtlas)...); err != nil {
+	if err := db.Exec(c.A.DDL(styleOf(c))...); err != nil {
 		return out, fmt.Errorf("harness: %v", err)
 	}
 	full, err := db.Inspect(ctx)
@@ -92,6 +95,20 @@ func checkEngine(c EngCase) (ExOutcome, error) {
 		qualified = append(qualified, q.String())
 	}
 	absent, unspecified, wantErr := reference([]gm.Schema{toGM(c.A)}, qp)
+	// the names are those of the database (the model): a named foreign key or check the pattern asks to leave out must be known
+	// to the inspection under that name, otherwise the pattern cannot reach it and the resource stays in
+	for k := range absent {
+		if (strings.HasPrefix(k, "fk:") || strings.HasPrefix(k, "check:")) && !strings.HasSuffix(k, "/") && !before[k] && !under(k, absent) {
+			var have []string
+			for b := range before {
+				if strings.HasPrefix(b, k[:strings.LastIndex(k, "/")+1]) {
+					have = append(have, b)
+				}
+			}
+			sort.Strings(have)
+			return out, fmt.Errorf("Exclude %q names %s, which the database has (DDL below), but the inspection does not know it by that name, so the pattern cannot leave it out; the inspection has %v\n  %s", rel, k, have, strings.Join(c.A.DDL(styleOf(c)), ";\n  "))
+		}
+	}
 	compare := func(what string, got map[string]bool) error {
 		var problems []string
 		for k := range before {
@@ -207,7 +224,7 @@ func checkCLI(c EngCase) (ExOutcome, error) {
 		}
 		return nil
 	}
-	if err := exec(cur, c.A.DDL(model.StyleAtlas)); err != nil {
+	if err := exec(cur, c.A.DDL(styleOf(c))); err != nil {
 		return out, fmt.Errorf("harness: %v", err)
 	}
 	var rows []string
@@ -435,4 +452,11 @@ func catalog(p string) (*sqliteref.Catalog, error) {
 	}
 	defer db.Close()
 	return sqliteref.Dump(db)
+}
+
+func styleOf(c EngCase) model.Style {
+	if c.Native {
+		return model.StyleNative
+	}
+	return model.StyleAtlas
 }
